@@ -91,6 +91,13 @@ macro_rules! trs3 {
                 // rotation + translation only, and mat3 + translation
                 let rt4 = <$M4>::from_rotation_translation(q, t).to_cols_array();
                 let rta = <$A3>::from_rotation_translation(q, t).to_cols_array();
+                // every 4x4 form of an affine transform has the homogeneous last row (0, 0, 0, 1) exactly
+                let pc = prod.to_cols_array();
+                for (nm, m) in [("Mat4::from_rotation_translation", &rt4), ("T*R*S (Mat4 elementary constructors)", &pc), ("Mat4::from_translation", &<$M4>::from_translation(t).to_cols_array()), ("Mat4::from_quat", &<$M4>::from_quat(q).to_cols_array()), ("Mat4::from_scale", &<$M4>::from_scale(s).to_cols_array())] {
+                    if m[3] != 0.0 || m[7] != 0.0 || m[11] != 0.0 || m[15] != 1.0 {
+                        if c.wants_witness("structure", &["Mat4 last row", nm]) { c.violation("structure", &["Mat4 last row", nm], inp(), format!("{:?}", m), "last row (0, 0, 0, 1)".into(), String::new()); } else { c.st.violations += 1; }
+                    }
+                }
                 let exact_rt = trs_ref(qf, [1.0; 3], tf);
                 for col in 0..4 {
                     for row in 0..3 {
